@@ -8,31 +8,56 @@ META = {
     "engine": "E1+E2+E3+E4",
     "text": "Coq theorems over an interleaving model of IdAllocator (Treiber stack with a (value, version) head, link "
             "array, _next_value) and DepositBox (slot version words) at atomic-operation granularity, for every client "
-            "program, every number of threads and every schedule: no value has two owners (free list included), the pop "
-            "CAS can only succeed with an up-to-date link (ABA excluded by the version), a solo allocate with a "
-            "non-empty free list reuses its top and mints nothing, the cells marked ACTIVE at quiescence are exactly the "
-            "held values, thread ids (allocate at birth, deallocate at exit) of simultaneously live threads differ; "
-            "for the box at most one take per id succeeds, a take of an issued id fails only if another take already "
-            "won, and a won id never matches its slot again however often the slot is reused.  Index expressions, the "
-            "+1 of push and take, the loop test, ACTIVE_FLAG and the atomic-op site tables are regenerated from "
-            "id_allocator.h(pp)/deposit_box.h on every run.  Tie: the real classes run under a deterministic scheduler "
-            "pre-empting at every atomic operation (no repo edits); for small programs every outcome they produce must "
-            "be one the extracted model admits (exhaustive exploration); monitors check the property text itself "
-            "(owner table, for_each at quiescence, free-list drain, take winners, stale ids across 48 slot reuses, real "
-            "thread birth/exit through ThreadId/LeakyThreadId).",
-    "note": "The uniqueness theorems are proved for unbounded versions (c14_unique_owner_partial ...): with the real "
-            "16-bit version the full statement is false - c14_unique_owner_refuted gives the schedule (one allocate "
-            "stalled between its loads and its CAS across exactly 65536 pushes) and the harness replays it on the real "
-            "IdAllocator<uint16_t> on every run (known finding version-wrap-aba-u16).  Not proved: the conditional "
-            "statement 'fewer than 2^w pushes inside any allocate window => unique' for the wrapped model (only the "
-            "unbounded instance and the refutation are); the 32-bit slot-version wrap of the deposit box (2^32 reuses "
-            "of one slot between two takes of a stale id) is stated as a hypothesis (vmod = 0), not replayed.  "
+            "program, every number of threads and every schedule, for the REAL version widths (vmod = 2^16 / 2^32) under "
+            "the window hypothesis no_wrap_in_window (fewer than vmod pushes between a head load and the CAS that "
+            "compares against it; slot version fewer than vmod ahead of a taken id) and for unbounded versions: no value "
+            "has two owners (free list included), the pop CAS can only succeed with an up-to-date link (ABA), a solo "
+            "allocate with a non-empty free list reuses its top and mints nothing, the cells marked ACTIVE at quiescence "
+            "are exactly the held values, thread ids of simultaneously live threads differ; for the box no emplace round "
+            "has two winners, a take of an issued id fails only if another take already won, a won id never matches its "
+            "slot again.  Proof of the real-width statements: the wrapped execution is step for step the image of the "
+            "unbounded (ghost) execution.  The boundary is the refuted witness (exactly 65536 pushes in one window), "
+            "replayed on the real IdAllocator<uint16_t> on every run.  Release/acquire half on the view machine of "
+            "coq/WM/RA.v with the orders of the regenerated site tables: link publication (release push CAS / acquire "
+            "head load / acquire reload of a failed pop CAS, also through a chain of RMWs), hand-over of the resource "
+            "from one owner of a value to the next, deposit item published by the client's channel (the box's own "
+            "orders are relaxed).  Index expressions, the +1 of push and take, the loop test, ACTIVE_FLAG and the "
+            "site tables are regenerated from id_allocator.h(pp)/deposit_box.h on every run.  Tie: the real classes "
+            "run under a deterministic scheduler pre-empting at every atomic operation (no repo edits); for small "
+            "programs every outcome they produce must be one the extracted model admits (exhaustive exploration); "
+            "monitors check the property text itself (owner table, for_each at quiescence, free-list drain, take "
+            "winners, stale ids across 48 slot reuses, real thread birth/exit through ThreadId/LeakyThreadId).",
+    "note": "Known finding version-wrap-aba-u16: without the window hypothesis the uniqueness statement is false for the "
+            "16-bit version (c14_unique_owner_refuted; replayed on the real code).  The window hypothesis is also asked "
+            "for deallocate's CAS (needed by the simulation proof only).  The deposit-box window is in terms of the "
+            "allocator's push count (slot versions are copies of the head version); 2^32 pushes are not replayed.  "
             "for_each's grouping of values into ranges and ConcurrentVector growth are not modelled (checked by the "
-            "monitor on the implementation, incl. across the 128-element block boundary).  Trusted: Coq kernel; "
-            "translator; extraction + OCaml explorer; macro shim and dsched (sequentially consistent executions only: "
-            "the relaxed/acquire/release orders are tied through the regenerated site tables, not executed); "
-            "-fno-access-control to construct a private DepositBox per case.",
+            "monitor on the implementation, incl. across the 128-element block boundary).  DepositBox orders nothing by "
+            "itself (relaxed version store / relaxed take CAS): the item is published by whatever the client uses to "
+            "pass the id (stated as c14_deposit_item_needs_client_channel).  Trusted: Coq kernel; translator; "
+            "extraction + OCaml explorer; macro shim and dsched (sequentially consistent executions only; the ordering "
+            "obligations are carried by coq/WM/RA.v: release/acquire views, no load buffering); -fno-access-control to "
+            "construct a private DepositBox per case.",
 }
+
+WM_IMPORTS = "Require Import Verif.Gen.Gen_id_allocator Verif.ID.IDLitmusDefs."
+WM_LITMUS = [
+    ("link-publication", "id_link_src_safe", "id_link_src", "id_link_bad",
+     "deallocate's push CAS lost its release or allocate's head load its acquire: an allocate that sees the value on "
+     "top can read a stale link (_free_next_value) and install a wrong free-list head"),
+    ("link-publication-failed-cas", "id_link_casfail_src_safe", "id_link_casfail_src", "id_link_bad",
+     "the reload done by allocate's failed pop CAS is not an acquire (or the push CAS not a release): the retry can "
+     "read a stale link"),
+    ("link-publication-chain", "id_chain_src_safe", "id_chain_src", "id_chain_bad",
+     "the link of a value is not visible to an allocate that reaches it through a later push and a pop"),
+    ("handover", "id_handover_src_safe", "id_handover_src", "id_handover_bad",
+     "the accesses of the previous owner of an id value to the resource it names do not happen-before those of the "
+     "next owner (data race across reuse): deallocate's CAS must release, allocate's head load acquire"),
+    ("handover-failed-cas", "id_handover_casfail_src_safe", "id_handover_casfail_src", "id_handover_bad",
+     "data race across reuse when the next owner learnt the head through a failed pop CAS: its failure order must acquire"),
+    ("deposit-item", "box_take_src_safe", "box_take_src", "box_take_bad",
+     "deposit item not published to the taker although the client passes the id with release/acquire"),
+]
 
 AL_SETUPS = ["-", "A,A,F0,F0", "A,A,A,F0,F0,F0", "A,A,A,F1,F0", "A,A,F1", "A,A,A,F0,F1", "A,A,A,A,F0,F2,F0"]
 AL_DIRECTED = [("A,A,A,F0,F0,F0", "A|A,A,F1"), ("A,A,A,F0,F0,F0", "A,A|A,A,F1"), ("A,A,F0,F0", "A|A,A,F1,A"),
@@ -130,6 +155,11 @@ def main(argv):
     chk.log("translated")
     chk.coq("Properties_C14.v")
     chk.log("coq done")
+    # release/acquire half: skeletons instantiated with the regenerated orders; an order weakened in the source makes a
+    # check false and the view machine is searched for the execution
+    for nm, safe, prog, bad, what in WM_LITMUS:
+        chk.wm_litmus(nm, WM_IMPORTS, safe, prog, bad, what, machine="RA")
+    chk.log("wm litmus done")
     model = chk.extract("id", "Extract_id.v", "id_driver.ml", explorer=True)
     chk.log("model extracted")
     impl = chk.build_cpp("c14_id", [os.path.join(VERIF, "harness/conc/c14_id.cpp"),
@@ -307,11 +337,12 @@ def main(argv):
         chk.sample({"case": line_of[cid][:300], "impl": impl_out[cid][:300]})
     chk.cov["trusted_base"] = chk.cov.get("trusted_base", []) + [
         "translator/gen.py", "ExtrOcamlBasic extraction + ocaml/explore.ml + ocaml/id_driver.ml",
+        "coq/WM/RA.v release/acquire view machine (explorer proved complete in WM/RAProofs.v; no load buffering)",
         "harness/shim (verif_atomic.h macro shim, dsched.cpp: pthread create/join interposition, sched_yield)",
         "g++ -fno-access-control (private DepositBox constructor, _slot_id_allocator)",
         "modelled not verified: ConcurrentVector (ensure / operator[] / snapshot), absl::optional"]
     chk.assumptions = ["sequentially consistent interleavings at atomic-operation granularity",
-                       "versions unbounded in the positive theorems (fewer than 2^16 resp. 2^32 pushes inside one "
-                       "allocate window / between two takes of one stale id)",
+                       "no_wrap_in_window: fewer than 2^16 resp. 2^32 pushes between a head load and the CAS comparing "
+                       "against it; slot version fewer than 2^32 ahead of a taken id (or unbounded versions)",
                        "fewer than 65534 (2^32-2) values ever minted by one allocator (nv <= ACTIVE_FLAG)"]
     chk.finish("proof")
